@@ -876,7 +876,7 @@ func enumerateHandler(r *prng.R, emit func(proto.Case)) {
 		return
 	}
 	defer rig.close()
-	urls := []string{"flowa.test/x", "flowb.test/y", "flowc.test/brew", "free.test/z"}
+	urls := []string{"flowa.test/x", "flowb.test/y", "flowc.test/brew", "free.test/z", "flowd.test/s", "flowe.test/s", "flowf.test/s"}
 	hdrSets := []map[string]string{{}, {"content-type": "application/json", "x-upstream": "u1"}, {"x-first": "orig", "x-resp": "orig", "x-b": "0"}}
 	id := 0
 	for _, u := range urls {
